@@ -6,7 +6,7 @@ import UsualProofs.C17.Chan
 /-! # C17 — TLS: policy decides session setup exactly; data intact under any schedule
 
 Property-level theorems about the model `Usual.C17` (lean/Usual/C17/{Config,Tls}.lean), which mirrors
-usual/tls/{tls.c, tls_config.c, tls_client.c, tls_server.c} *with fixes F18 (C08), F28 and F29
+usual/tls/{tls.c, tls_config.c, tls_client.c, tls_server.c} *with fixes F18 (C08), F34 and F29
 applied*.  What these theorems do **not** carry (and why the level claimed is "other"): the decision
 about a certificate chain, the record layer and the version negotiation are taken inside the linked
 OpenSSL; they appear here as the parameters `PeerCert.trusted/timeValid`, the scripted `SslRes`
@@ -14,7 +14,7 @@ results, and the functions `clientRange`/`negotiated` transcribed from OpenSSL's
 `ssl_get_min_max_version`/`ssl_choose_server_version`.  The correspondence run (checks/C17.py,
 harness/C17/h.c) compares each of them with the real stack on the full matrix.
 
-Unchanged-code findings kept as theorems: `configEqualOld_counterexample` (fix F28) and
+Unchanged-code findings kept as theorems: `configEqualOld_counterexample` (fix F34) and
 `ioOld_zero_on_oversize_counterexample` (fix F29). -/
 namespace UsualProps.C17
 open Usual.C17 UsualProofs.C17
@@ -61,12 +61,12 @@ theorem keypairListEqual_iff (a b : List Keypair) :
 example : keypairListEqual [⟨none, .null 0, some [1], .buf []⟩, ⟨none, .null 0, none, .null 0⟩]
                            [⟨none, .null 0, some [1], .buf []⟩] = false := by decide
 
-/-- The pinned tree (before fix F28): `tls_mem_equal` skips the content comparison when either
+/-- The pinned tree (before fix F34): `tls_mem_equal` skips the content comparison when either
     pointer is NULL, so two configs that differ in a configurable field compare equal.
     Witness reachable through the public setters:
     `tls_config_set_ca_mem(a, NULL, 3)` versus `tls_config_set_ca_mem(b, "abc", 3)`
     (and, with length 0: the default config versus `tls_config_set_ca_mem(b, "", 0)`, where
-    `tls_configure_ssl_verify` takes different branches).  Replayed on the real code: corpus/C17/f28-*.ops. -/
+    `tls_configure_ssl_verify` takes different branches).  Replayed on the real code: corpus/C17/f34-*.ops. -/
 theorem configEqualOld_counterexample :
     ¬ (∀ a b : Config, configEqualOld a b = true ↔ a = b) := by
   intro h
